@@ -91,6 +91,7 @@ fn any_numeric<const CAP: usize, S: Src>(s: &mut S, min_len: usize, with_tail: b
 harness! {
     /// kind=bounded tier=quick bound="u8: every valid UTF-8 string<=4 bytes (all 256 values with leading zeros, '-0', '+', letters, spaces, non-ASCII digits)"
     #[kani::unwind(8)]
+    #[kani::stub(konst_kernel::string::non_char_boundary_panic, crate::hlib::stub_non_char_boundary_panic)]
     fn c12_whole_u8(s) {
         let bs = BStr::<4>::any(s);
         let h = bs.as_str();
@@ -107,6 +108,7 @@ harness! {
 harness! {
     /// kind=bounded tier=quick bound="i8: every valid UTF-8 string<=4 bytes (all 256 values, '-0', '-128', '-129', '+', '--1', letters, non-ASCII)"
     #[kani::unwind(8)]
+    #[kani::stub(konst_kernel::string::non_char_boundary_panic, crate::hlib::stub_non_char_boundary_panic)]
     fn c12_whole_i8(s) {
         let bs = BStr::<4>::any(s);
         let h = bs.as_str();
@@ -123,6 +125,7 @@ harness! {
 harness! {
     /// kind=bounded tier=quick bound="u8/i8 prefix parsing: every valid UTF-8 string<=5 bytes (number followed by an arbitrary suffix)"
     #[kani::unwind(9)]
+    #[kani::stub(konst_kernel::string::non_char_boundary_panic, crate::hlib::stub_non_char_boundary_panic)]
     fn c12_prefix_8(s) {
         let bs = BStr::<5>::any(s);
         let h = bs.as_str();
@@ -142,6 +145,7 @@ harness! {
 harness! {
     /// kind=bounded tier=quick bound="u16: every valid UTF-8 string<=6 bytes (all 65536 values, one extra digit / leading zero, '+', letters, non-ASCII)"
     #[kani::unwind(10)]
+    #[kani::stub(konst_kernel::string::non_char_boundary_panic, crate::hlib::stub_non_char_boundary_panic)]
     fn c12_whole_u16(s) {
         let bs = BStr::<6>::any(s);
         let h = bs.as_str();
@@ -156,6 +160,7 @@ harness! {
 harness! {
     /// kind=bounded tier=quick bound="i16: every valid UTF-8 string<=6 bytes (all 65536 values, '-32768', '-32769', '-0', '+', letters, non-ASCII)"
     #[kani::unwind(10)]
+    #[kani::stub(konst_kernel::string::non_char_boundary_panic, crate::hlib::stub_non_char_boundary_panic)]
     fn c12_whole_i16(s) {
         let bs = BStr::<6>::any(s);
         let h = bs.as_str();
@@ -170,6 +175,7 @@ harness! {
 harness! {
     /// kind=bounded tier=quick bound="u16 prefix parsing: [-+]?digits of <=m bytes continued by arbitrary ASCII, total<=7 bytes, m symbolic"
     #[kani::unwind(11)]
+    #[kani::stub(konst_kernel::string::non_char_boundary_panic, crate::hlib::stub_non_char_boundary_panic)]
     fn c12_prefix_u16(s) {
         let (buf, len) = any_numeric::<7, _>(s, 0, true);
         let h = ascii_str(&buf[..len]);
@@ -183,6 +189,7 @@ harness! {
 harness! {
     /// kind=bounded tier=quick bound="i16 prefix parsing: [-+]?digits of <=m bytes continued by arbitrary ASCII, total<=7 bytes, m symbolic"
     #[kani::unwind(11)]
+    #[kani::stub(konst_kernel::string::non_char_boundary_panic, crate::hlib::stub_non_char_boundary_panic)]
     fn c12_prefix_i16(s) {
         let (buf, len) = any_numeric::<7, _>(s, 0, true);
         let h = ascii_str(&buf[..len]);
@@ -217,7 +224,7 @@ fn fixed_numeric<const CAP: usize, S: Src>(s: &mut S, k: usize) -> ([u8; CAP], u
     (buf, off + k)
 }
 
-/// one wide-type check; returns (string length, konst's result, first digit)
+/// one wide-type check; returns (string length, konst's result, the string's bytes)
 fn wide<T: KInt, const CAP: usize, S: Src>(s: &mut S, k: usize) -> (usize, Option<T>, [u8; CAP]) {
     let (buf, len) = fixed_numeric::<CAP, _>(s, k);
     let h = ascii_str(&buf[..len]);
@@ -225,41 +232,11 @@ fn wide<T: KInt, const CAP: usize, S: Src>(s: &mut S, k: usize) -> (usize, Optio
     (len, T::whole(h), buf)
 }
 
-harness! {
-    /// kind=bounded tier=quick bound="u32: sign in {none,'-','+'} followed by exactly 10 symbolic digits (u32::MAX has 10 digits)"
-    #[kani::unwind(14)]
-    fn c12_wide_u32(s) {
-        let (len, r, buf) = wide::<u32, 12, _>(s, 10);
-        cov!(s, r == Some(u32::MAX), "C12.cover.u32_max");
-        cov!(s, r == Some(7), "C12.cover.u32_leading_zeros");
-        cov!(s, r.is_none() && len == 10 && buf[0] == b'4' && buf[1] == b'2', "C12.cover.u32_overflow_near_max");
-    }
-}
-
-harness! {
-    /// kind=bounded tier=quick bound="u32: sign in {none,'-','+'} followed by exactly 11 symbolic digits (one more than u32::MAX)"
-    #[kani::unwind(15)]
-    fn c12_wide_u32_extra(s) {
-        let (len, r, buf) = wide::<u32, 12, _>(s, 11);
-        cov!(s, r == Some(u32::MAX), "C12.cover.u32_max_leading_zero");
-        cov!(s, r.is_none() && len == 11 && buf[0] == b'1', "C12.cover.u32_extra_digit_overflow");
-    }
-}
-
-harness! {
-    /// kind=bounded tier=quick bound="u64: sign in {none,'-','+'} followed by exactly 20 symbolic digits (u64::MAX has 20 digits)"
-    #[kani::unwind(24)]
-    fn c12_wide_u64(s) {
-        let (len, r, buf) = wide::<u64, 22, _>(s, 20);
-        cov!(s, r == Some(u64::MAX), "C12.cover.u64_max");
-        cov!(s, r.is_none() && len == 20 && buf[0] == b'1' && buf[1] == b'8', "C12.cover.u64_overflow_near_max");
-    }
-}
-
 /// neighbourhood strings with a *concrete* layout (sign: 0 none, 1 '-', 2 '+'; `lead`: one extra
 /// symbolic leading digit): the first `m.len() - d` digits of `m` (the decimal digits of the type's
-/// MAX, which MIN shares up to the last digit), then `d` symbolic digits.
-fn near_numeric<const CAP: usize, S: Src>(s: &mut S, sign: usize, lead: bool, m: &[u8], d: usize) -> ([u8; CAP], usize) {
+/// MAX, which MIN shares up to the last digit), then `d` symbolic digits; whole-string parsing of that,
+/// and prefix parsing of that string continued by one symbolic ASCII byte.
+fn near_one<T: KInt, const CAP: usize, S: Src>(s: &mut S, sign: usize, lead: bool, m: &[u8], d: usize) -> (usize, Option<T>, [u8; CAP]) {
     let mut buf = [0u8; CAP];
     let mut n = 0;
     if sign == 1 {
@@ -289,24 +266,376 @@ fn near_numeric<const CAP: usize, S: Src>(s: &mut S, sign: usize, lead: bool, m:
         n += 1;
         j += 1;
     }
-    (buf, n)
+    let tail = s.u8();
+    s.assume(tail < 0x80);
+    buf[n] = tail;
+    let h = ascii_str(&buf[..n]);
+    check_whole::<T, _>(s, h);
+    let _ = check_prefix::<T, _>(s, ascii_str(&buf[..n + 1]));
+    (n, T::whole(h), buf)
 }
 
-fn near<T: KInt, const CAP: usize, S: Src>(s: &mut S, sign: usize, lead: bool, m: &[u8], d: usize) -> (usize, Option<T>, [u8; CAP]) {
-    let (buf, len) = near_numeric::<CAP, _>(s, sign, lead, m, d);
-    let h = ascii_str(&buf[..len]);
-    check_whole::<T, _>(s, h);
-    (len, T::whole(h), buf)
+/// all six layouts (3 signs x with/without an extra leading digit), each explored with constant positions
+fn near<T: KInt, const CAP: usize, S: Src>(s: &mut S, m: &[u8], d: usize) -> (usize, Option<T>, [u8; CAP]) {
+    match s.upto(5) {
+        0 => near_one::<T, CAP, S>(s, 0, false, m, d),
+        1 => near_one::<T, CAP, S>(s, 1, false, m, d),
+        2 => near_one::<T, CAP, S>(s, 2, false, m, d),
+        3 => near_one::<T, CAP, S>(s, 0, true, m, d),
+        4 => near_one::<T, CAP, S>(s, 1, true, m, d),
+        _ => near_one::<T, CAP, S>(s, 2, true, m, d),
+    }
 }
 
 harness! {
-    /// kind=bounded tier=quick bound="u128: the first 36 digits of u128::MAX then 3 symbolic digits, no sign"
-    #[kani::unwind(44)]
+    /// kind=bounded tier=quick bound="u32: sign in {none,'-','+'}, optional extra leading digit, the first 6 digits of u32::MAX, 4 symbolic digits; prefix parsing with one more symbolic ASCII byte"
+    #[kani::unwind(16)]
+    #[kani::stub(konst_kernel::string::non_char_boundary_panic, crate::hlib::stub_non_char_boundary_panic)]
+    fn c12_near_u32(s) {
+        let (len, r, buf) = near::<u32, 14, _>(s, b"4294967295", 4);
+        cov!(s, r == Some(u32::MAX) && len == 10, "C12.cover.u32_near_max");
+        cov!(s, r == Some(u32::MAX) && len == 11, "C12.cover.u32_near_max_leading_zero");
+        cov!(s, r == Some(u32::MAX - 2), "C12.cover.u32_near_max_minus_2");
+        cov!(s, r.is_none() && len == 10 && buf[0] != b'+' && buf[0] != b'-' && buf[9] == b'6' && buf[8] == b'9' && buf[7] == b'2' && buf[6] == b'7', "C12.cover.u32_near_max_plus_1");
+        cov!(s, r.is_none() && len == 11 && buf[0] == b'1', "C12.cover.u32_near_extra_digit");
+        cov!(s, r.is_none() && buf[0] == b'+', "C12.cover.u32_near_plus_rejected");
+        cov!(s, r.is_none() && buf[0] == b'-', "C12.cover.u32_near_minus_rejected");
+    }
+}
+
+harness! {
+    /// kind=bounded tier=quick bound="u32: sign in {none,'-','+'} followed by exactly 10 symbolic digits (u32::MAX has 10 digits)"
+    #[kani::unwind(14)]
+    #[kani::stub(konst_kernel::string::non_char_boundary_panic, crate::hlib::stub_non_char_boundary_panic)]
+    fn c12_wide_u32(s) {
+        let (len, r, buf) = wide::<u32, 13, _>(s, 10);
+        cov!(s, r == Some(u32::MAX), "C12.cover.u32_max");
+        cov!(s, r == Some(7), "C12.cover.u32_leading_zeros");
+        cov!(s, r.is_none() && len == 10 && buf[0] == b'4' && buf[1] == b'2', "C12.cover.u32_overflow_near_max");
+    }
+}
+
+harness! {
+    /// kind=bounded tier=quick bound="u32: sign in {none,'-','+'} followed by exactly 11 symbolic digits (one more than u32::MAX has)"
+    #[kani::unwind(15)]
+    #[kani::stub(konst_kernel::string::non_char_boundary_panic, crate::hlib::stub_non_char_boundary_panic)]
+    fn c12_wide_u32_extra(s) {
+        let (len, r, buf) = wide::<u32, 13, _>(s, 11);
+        cov!(s, r == Some(u32::MAX), "C12.cover.u32_max_leading_zero");
+        cov!(s, r.is_none() && len == 11 && buf[0] == b'1', "C12.cover.u32_extra_digit_overflow");
+    }
+}
+
+harness! {
+    /// kind=bounded tier=quick bound="i32: sign in {none,'-','+'}, optional extra leading digit, the first 6 digits of i32::MAX, 4 symbolic digits; prefix parsing with one more symbolic ASCII byte"
+    #[kani::unwind(16)]
+    #[kani::stub(konst_kernel::string::non_char_boundary_panic, crate::hlib::stub_non_char_boundary_panic)]
+    fn c12_near_i32(s) {
+        let (len, r, buf) = near::<i32, 14, _>(s, b"2147483647", 4);
+        cov!(s, r == Some(i32::MAX) && len == 10, "C12.cover.i32_near_max");
+        cov!(s, r == Some(i32::MAX) && len == 11, "C12.cover.i32_near_max_leading_zero");
+        cov!(s, r == Some(i32::MAX - 2), "C12.cover.i32_near_max_minus_2");
+        cov!(s, r.is_none() && len == 10 && buf[0] != b'+' && buf[0] != b'-' && buf[9] == b'8' && buf[8] == b'4' && buf[7] == b'6' && buf[6] == b'3', "C12.cover.i32_near_max_plus_1");
+        cov!(s, r.is_none() && len == 11 && buf[0] == b'1', "C12.cover.i32_near_extra_digit");
+        cov!(s, r.is_none() && buf[0] == b'+', "C12.cover.i32_near_plus_rejected");
+        cov!(s, r == Some(i32::MIN) && len == 11, "C12.cover.i32_near_min");
+        cov!(s, r == Some(i32::MIN) && len == 12, "C12.cover.i32_near_min_leading_zero");
+        cov!(s, r == Some(i32::MIN + 2), "C12.cover.i32_near_min_plus_2");
+        cov!(s, r.is_none() && len == 11 && buf[0] == b'-' && buf[10] == b'9' && buf[9] == b'4' && buf[8] == b'6' && buf[7] == b'3', "C12.cover.i32_near_min_minus_1");
+    }
+}
+
+harness! {
+    /// kind=bounded tier=quick bound="i32: sign in {none,'-','+'} followed by exactly 10 symbolic digits (i32::MAX has 10 digits)"
+    #[kani::unwind(14)]
+    #[kani::stub(konst_kernel::string::non_char_boundary_panic, crate::hlib::stub_non_char_boundary_panic)]
+    fn c12_wide_i32(s) {
+        let (len, r, buf) = wide::<i32, 13, _>(s, 10);
+        cov!(s, r == Some(i32::MAX), "C12.cover.i32_max");
+        cov!(s, r == Some(7), "C12.cover.i32_leading_zeros");
+        cov!(s, r.is_none() && len == 10 && buf[0] == b'2' && buf[1] == b'1', "C12.cover.i32_overflow_near_max");
+        cov!(s, r == Some(i32::MIN), "C12.cover.i32_min");
+        cov!(s, r == Some(0) && buf[0] == b'-', "C12.cover.i32_minus_zero");
+    }
+}
+
+harness! {
+    /// kind=bounded tier=quick bound="i32: sign in {none,'-','+'} followed by exactly 11 symbolic digits (one more than i32::MAX has)"
+    #[kani::unwind(15)]
+    #[kani::stub(konst_kernel::string::non_char_boundary_panic, crate::hlib::stub_non_char_boundary_panic)]
+    fn c12_wide_i32_extra(s) {
+        let (len, r, buf) = wide::<i32, 13, _>(s, 11);
+        cov!(s, r == Some(i32::MAX), "C12.cover.i32_max_leading_zero");
+        cov!(s, r.is_none() && len == 11 && buf[0] == b'1', "C12.cover.i32_extra_digit_overflow");
+        cov!(s, r == Some(i32::MIN), "C12.cover.i32_min_leading_zero");
+    }
+}
+
+harness! {
+    /// kind=bounded tier=quick bound="u64: sign in {none,'-','+'}, optional extra leading digit, the first 16 digits of u64::MAX, 4 symbolic digits; prefix parsing with one more symbolic ASCII byte"
+    #[kani::unwind(26)]
+    #[kani::stub(konst_kernel::string::non_char_boundary_panic, crate::hlib::stub_non_char_boundary_panic)]
+    fn c12_near_u64(s) {
+        let (len, r, buf) = near::<u64, 24, _>(s, b"18446744073709551615", 4);
+        cov!(s, r == Some(u64::MAX) && len == 20, "C12.cover.u64_near_max");
+        cov!(s, r == Some(u64::MAX) && len == 21, "C12.cover.u64_near_max_leading_zero");
+        cov!(s, r == Some(u64::MAX - 2), "C12.cover.u64_near_max_minus_2");
+        cov!(s, r.is_none() && len == 20 && buf[0] != b'+' && buf[0] != b'-' && buf[19] == b'6' && buf[18] == b'1' && buf[17] == b'6' && buf[16] == b'1', "C12.cover.u64_near_max_plus_1");
+        cov!(s, r.is_none() && len == 21 && buf[0] == b'1', "C12.cover.u64_near_extra_digit");
+        cov!(s, r.is_none() && buf[0] == b'+', "C12.cover.u64_near_plus_rejected");
+        cov!(s, r.is_none() && buf[0] == b'-', "C12.cover.u64_near_minus_rejected");
+    }
+}
+
+harness! {
+    /// kind=bounded tier=quick bound="u64: sign in {none,'-','+'} followed by exactly 20 symbolic digits (u64::MAX has 20 digits)"
+    #[kani::unwind(24)]
+    #[kani::stub(konst_kernel::string::non_char_boundary_panic, crate::hlib::stub_non_char_boundary_panic)]
+    fn c12_wide_u64(s) {
+        let (len, r, buf) = wide::<u64, 23, _>(s, 20);
+        cov!(s, r == Some(u64::MAX), "C12.cover.u64_max");
+        cov!(s, r == Some(7), "C12.cover.u64_leading_zeros");
+        cov!(s, r.is_none() && len == 20 && buf[0] == b'1' && buf[1] == b'8', "C12.cover.u64_overflow_near_max");
+    }
+}
+
+harness! {
+    /// kind=bounded tier=thorough bound="u64: sign in {none,'-','+'} followed by exactly 21 symbolic digits (one more than u64::MAX has)"
+    #[kani::unwind(25)]
+    #[kani::stub(konst_kernel::string::non_char_boundary_panic, crate::hlib::stub_non_char_boundary_panic)]
+    fn c12_wide_u64_extra(s) {
+        let (len, r, buf) = wide::<u64, 23, _>(s, 21);
+        cov!(s, r == Some(u64::MAX), "C12.cover.u64_max_leading_zero");
+        cov!(s, r.is_none() && len == 21 && buf[0] == b'1', "C12.cover.u64_extra_digit_overflow");
+    }
+}
+
+harness! {
+    /// kind=bounded tier=quick bound="i64: sign in {none,'-','+'}, optional extra leading digit, the first 15 digits of i64::MAX, 4 symbolic digits; prefix parsing with one more symbolic ASCII byte"
+    #[kani::unwind(25)]
+    #[kani::stub(konst_kernel::string::non_char_boundary_panic, crate::hlib::stub_non_char_boundary_panic)]
+    fn c12_near_i64(s) {
+        let (len, r, buf) = near::<i64, 23, _>(s, b"9223372036854775807", 4);
+        cov!(s, r == Some(i64::MAX) && len == 19, "C12.cover.i64_near_max");
+        cov!(s, r == Some(i64::MAX) && len == 20, "C12.cover.i64_near_max_leading_zero");
+        cov!(s, r == Some(i64::MAX - 2), "C12.cover.i64_near_max_minus_2");
+        cov!(s, r.is_none() && len == 19 && buf[0] != b'+' && buf[0] != b'-' && buf[18] == b'8' && buf[17] == b'0' && buf[16] == b'8' && buf[15] == b'5', "C12.cover.i64_near_max_plus_1");
+        cov!(s, r.is_none() && len == 20 && buf[0] == b'1', "C12.cover.i64_near_extra_digit");
+        cov!(s, r.is_none() && buf[0] == b'+', "C12.cover.i64_near_plus_rejected");
+        cov!(s, r == Some(i64::MIN) && len == 20, "C12.cover.i64_near_min");
+        cov!(s, r == Some(i64::MIN) && len == 21, "C12.cover.i64_near_min_leading_zero");
+        cov!(s, r == Some(i64::MIN + 2), "C12.cover.i64_near_min_plus_2");
+        cov!(s, r.is_none() && len == 20 && buf[0] == b'-' && buf[19] == b'9' && buf[18] == b'0' && buf[17] == b'8' && buf[16] == b'5', "C12.cover.i64_near_min_minus_1");
+    }
+}
+
+harness! {
+    /// kind=bounded tier=quick bound="i64: sign in {none,'-','+'} followed by exactly 19 symbolic digits (i64::MAX has 19 digits)"
+    #[kani::unwind(23)]
+    #[kani::stub(konst_kernel::string::non_char_boundary_panic, crate::hlib::stub_non_char_boundary_panic)]
+    fn c12_wide_i64(s) {
+        let (len, r, buf) = wide::<i64, 22, _>(s, 19);
+        cov!(s, r == Some(i64::MAX), "C12.cover.i64_max");
+        cov!(s, r == Some(7), "C12.cover.i64_leading_zeros");
+        cov!(s, r.is_none() && len == 19 && buf[0] == b'9' && buf[1] == b'2', "C12.cover.i64_overflow_near_max");
+        cov!(s, r == Some(i64::MIN), "C12.cover.i64_min");
+        cov!(s, r == Some(0) && buf[0] == b'-', "C12.cover.i64_minus_zero");
+    }
+}
+
+harness! {
+    /// kind=bounded tier=thorough bound="i64: sign in {none,'-','+'} followed by exactly 20 symbolic digits (one more than i64::MAX has)"
+    #[kani::unwind(24)]
+    #[kani::stub(konst_kernel::string::non_char_boundary_panic, crate::hlib::stub_non_char_boundary_panic)]
+    fn c12_wide_i64_extra(s) {
+        let (len, r, buf) = wide::<i64, 22, _>(s, 20);
+        cov!(s, r == Some(i64::MAX), "C12.cover.i64_max_leading_zero");
+        cov!(s, r.is_none() && len == 20 && buf[0] == b'1', "C12.cover.i64_extra_digit_overflow");
+        cov!(s, r == Some(i64::MIN), "C12.cover.i64_min_leading_zero");
+    }
+}
+
+harness! {
+    /// kind=bounded tier=quick bound="u128: sign in {none,'-','+'}, optional extra leading digit, the first 35 digits of u128::MAX, 4 symbolic digits; prefix parsing with one more symbolic ASCII byte"
+    #[kani::unwind(45)]
+    #[kani::stub(konst_kernel::string::non_char_boundary_panic, crate::hlib::stub_non_char_boundary_panic)]
     fn c12_near_u128(s) {
-        let (len, r, buf) = near::<u128, 42, _>(s, 0, false, b"340282366920938463463374607431768211455", 3);
-        cov!(s, r == Some(u128::MAX) && len == 39, "C12.cover.u128_max");
-        cov!(s, r == Some(u128::MAX - 2), "C12.cover.u128_max_minus_2");
-        cov!(s, r.is_none() && len == 39 && buf[38] == b'6' && buf[37] == b'5' && buf[36] == b'4', "C12.cover.u128_max_plus_1");
+        let (len, r, buf) = near::<u128, 43, _>(s, b"340282366920938463463374607431768211455", 4);
+        cov!(s, r == Some(u128::MAX) && len == 39, "C12.cover.u128_near_max");
+        cov!(s, r == Some(u128::MAX) && len == 40, "C12.cover.u128_near_max_leading_zero");
+        cov!(s, r == Some(u128::MAX - 2), "C12.cover.u128_near_max_minus_2");
+        cov!(s, r.is_none() && len == 39 && buf[0] != b'+' && buf[0] != b'-' && buf[38] == b'6' && buf[37] == b'5' && buf[36] == b'4' && buf[35] == b'1', "C12.cover.u128_near_max_plus_1");
+        cov!(s, r.is_none() && len == 40 && buf[0] == b'1', "C12.cover.u128_near_extra_digit");
+        cov!(s, r.is_none() && buf[0] == b'+', "C12.cover.u128_near_plus_rejected");
+        cov!(s, r.is_none() && buf[0] == b'-', "C12.cover.u128_near_minus_rejected");
+    }
+}
+
+harness! {
+    /// kind=bounded tier=thorough bound="u128: sign in {none,'-','+'} followed by exactly 39 symbolic digits (u128::MAX has 39 digits)"
+    #[kani::unwind(43)]
+    #[kani::stub(konst_kernel::string::non_char_boundary_panic, crate::hlib::stub_non_char_boundary_panic)]
+    fn c12_wide_u128(s) {
+        let (len, r, buf) = wide::<u128, 42, _>(s, 39);
+        cov!(s, r == Some(u128::MAX), "C12.cover.u128_max");
+        cov!(s, r == Some(7), "C12.cover.u128_leading_zeros");
+        cov!(s, r.is_none() && len == 39 && buf[0] == b'3' && buf[1] == b'4', "C12.cover.u128_overflow_near_max");
+    }
+}
+
+harness! {
+    /// kind=bounded tier=thorough bound="u128: sign in {none,'-','+'} followed by exactly 40 symbolic digits (one more than u128::MAX has)"
+    #[kani::unwind(44)]
+    #[kani::stub(konst_kernel::string::non_char_boundary_panic, crate::hlib::stub_non_char_boundary_panic)]
+    fn c12_wide_u128_extra(s) {
+        let (len, r, buf) = wide::<u128, 42, _>(s, 40);
+        cov!(s, r == Some(u128::MAX), "C12.cover.u128_max_leading_zero");
+        cov!(s, r.is_none() && len == 40 && buf[0] == b'1', "C12.cover.u128_extra_digit_overflow");
+    }
+}
+
+harness! {
+    /// kind=bounded tier=quick bound="i128: sign in {none,'-','+'}, optional extra leading digit, the first 35 digits of i128::MAX, 4 symbolic digits; prefix parsing with one more symbolic ASCII byte"
+    #[kani::unwind(45)]
+    #[kani::stub(konst_kernel::string::non_char_boundary_panic, crate::hlib::stub_non_char_boundary_panic)]
+    fn c12_near_i128(s) {
+        let (len, r, buf) = near::<i128, 43, _>(s, b"170141183460469231731687303715884105727", 4);
+        cov!(s, r == Some(i128::MAX) && len == 39, "C12.cover.i128_near_max");
+        cov!(s, r == Some(i128::MAX) && len == 40, "C12.cover.i128_near_max_leading_zero");
+        cov!(s, r == Some(i128::MAX - 2), "C12.cover.i128_near_max_minus_2");
+        cov!(s, r.is_none() && len == 39 && buf[0] != b'+' && buf[0] != b'-' && buf[38] == b'8' && buf[37] == b'2' && buf[36] == b'7' && buf[35] == b'5', "C12.cover.i128_near_max_plus_1");
+        cov!(s, r.is_none() && len == 40 && buf[0] == b'1', "C12.cover.i128_near_extra_digit");
+        cov!(s, r.is_none() && buf[0] == b'+', "C12.cover.i128_near_plus_rejected");
+        cov!(s, r == Some(i128::MIN) && len == 40, "C12.cover.i128_near_min");
+        cov!(s, r == Some(i128::MIN) && len == 41, "C12.cover.i128_near_min_leading_zero");
+        cov!(s, r == Some(i128::MIN + 2), "C12.cover.i128_near_min_plus_2");
+        cov!(s, r.is_none() && len == 40 && buf[0] == b'-' && buf[39] == b'9' && buf[38] == b'2' && buf[37] == b'7' && buf[36] == b'5', "C12.cover.i128_near_min_minus_1");
+    }
+}
+
+harness! {
+    /// kind=bounded tier=thorough bound="i128: sign in {none,'-','+'} followed by exactly 39 symbolic digits (i128::MAX has 39 digits)"
+    #[kani::unwind(43)]
+    #[kani::stub(konst_kernel::string::non_char_boundary_panic, crate::hlib::stub_non_char_boundary_panic)]
+    fn c12_wide_i128(s) {
+        let (len, r, buf) = wide::<i128, 42, _>(s, 39);
+        cov!(s, r == Some(i128::MAX), "C12.cover.i128_max");
+        cov!(s, r == Some(7), "C12.cover.i128_leading_zeros");
+        cov!(s, r.is_none() && len == 39 && buf[0] == b'1' && buf[1] == b'7', "C12.cover.i128_overflow_near_max");
+        cov!(s, r == Some(i128::MIN), "C12.cover.i128_min");
+        cov!(s, r == Some(0) && buf[0] == b'-', "C12.cover.i128_minus_zero");
+    }
+}
+
+harness! {
+    /// kind=bounded tier=thorough bound="i128: sign in {none,'-','+'} followed by exactly 40 symbolic digits (one more than i128::MAX has)"
+    #[kani::unwind(44)]
+    #[kani::stub(konst_kernel::string::non_char_boundary_panic, crate::hlib::stub_non_char_boundary_panic)]
+    fn c12_wide_i128_extra(s) {
+        let (len, r, buf) = wide::<i128, 42, _>(s, 40);
+        cov!(s, r == Some(i128::MAX), "C12.cover.i128_max_leading_zero");
+        cov!(s, r.is_none() && len == 40 && buf[0] == b'1', "C12.cover.i128_extra_digit_overflow");
+        cov!(s, r == Some(i128::MIN), "C12.cover.i128_min_leading_zero");
+    }
+}
+
+harness! {
+    /// kind=bounded tier=quick bound="usize: sign in {none,'-','+'}, optional extra leading digit, the first 16 digits of usize::MAX, 4 symbolic digits; prefix parsing with one more symbolic ASCII byte"
+    #[kani::unwind(26)]
+    #[kani::stub(konst_kernel::string::non_char_boundary_panic, crate::hlib::stub_non_char_boundary_panic)]
+    fn c12_near_usize(s) {
+        let (len, r, buf) = near::<usize, 24, _>(s, b"18446744073709551615", 4);
+        cov!(s, r == Some(usize::MAX) && len == 20, "C12.cover.usize_near_max");
+        cov!(s, r == Some(usize::MAX) && len == 21, "C12.cover.usize_near_max_leading_zero");
+        cov!(s, r == Some(usize::MAX - 2), "C12.cover.usize_near_max_minus_2");
+        cov!(s, r.is_none() && len == 20 && buf[0] != b'+' && buf[0] != b'-' && buf[19] == b'6' && buf[18] == b'1' && buf[17] == b'6' && buf[16] == b'1', "C12.cover.usize_near_max_plus_1");
+        cov!(s, r.is_none() && len == 21 && buf[0] == b'1', "C12.cover.usize_near_extra_digit");
+        cov!(s, r.is_none() && buf[0] == b'+', "C12.cover.usize_near_plus_rejected");
+        cov!(s, r.is_none() && buf[0] == b'-', "C12.cover.usize_near_minus_rejected");
+    }
+}
+
+harness! {
+    /// kind=bounded tier=thorough bound="usize: sign in {none,'-','+'} followed by exactly 20 symbolic digits (usize::MAX has 20 digits)"
+    #[kani::unwind(24)]
+    #[kani::stub(konst_kernel::string::non_char_boundary_panic, crate::hlib::stub_non_char_boundary_panic)]
+    fn c12_wide_usize(s) {
+        let (len, r, buf) = wide::<usize, 23, _>(s, 20);
+        cov!(s, r == Some(usize::MAX), "C12.cover.usize_max");
+        cov!(s, r == Some(7), "C12.cover.usize_leading_zeros");
+        cov!(s, r.is_none() && len == 20 && buf[0] == b'1' && buf[1] == b'8', "C12.cover.usize_overflow_near_max");
+    }
+}
+
+harness! {
+    /// kind=bounded tier=thorough bound="usize: sign in {none,'-','+'} followed by exactly 21 symbolic digits (one more than usize::MAX has)"
+    #[kani::unwind(25)]
+    #[kani::stub(konst_kernel::string::non_char_boundary_panic, crate::hlib::stub_non_char_boundary_panic)]
+    fn c12_wide_usize_extra(s) {
+        let (len, r, buf) = wide::<usize, 23, _>(s, 21);
+        cov!(s, r == Some(usize::MAX), "C12.cover.usize_max_leading_zero");
+        cov!(s, r.is_none() && len == 21 && buf[0] == b'1', "C12.cover.usize_extra_digit_overflow");
+    }
+}
+
+harness! {
+    /// kind=bounded tier=quick bound="isize: sign in {none,'-','+'}, optional extra leading digit, the first 15 digits of isize::MAX, 4 symbolic digits; prefix parsing with one more symbolic ASCII byte"
+    #[kani::unwind(25)]
+    #[kani::stub(konst_kernel::string::non_char_boundary_panic, crate::hlib::stub_non_char_boundary_panic)]
+    fn c12_near_isize(s) {
+        let (len, r, buf) = near::<isize, 23, _>(s, b"9223372036854775807", 4);
+        cov!(s, r == Some(isize::MAX) && len == 19, "C12.cover.isize_near_max");
+        cov!(s, r == Some(isize::MAX) && len == 20, "C12.cover.isize_near_max_leading_zero");
+        cov!(s, r == Some(isize::MAX - 2), "C12.cover.isize_near_max_minus_2");
+        cov!(s, r.is_none() && len == 19 && buf[0] != b'+' && buf[0] != b'-' && buf[18] == b'8' && buf[17] == b'0' && buf[16] == b'8' && buf[15] == b'5', "C12.cover.isize_near_max_plus_1");
+        cov!(s, r.is_none() && len == 20 && buf[0] == b'1', "C12.cover.isize_near_extra_digit");
+        cov!(s, r.is_none() && buf[0] == b'+', "C12.cover.isize_near_plus_rejected");
+        cov!(s, r == Some(isize::MIN) && len == 20, "C12.cover.isize_near_min");
+        cov!(s, r == Some(isize::MIN) && len == 21, "C12.cover.isize_near_min_leading_zero");
+        cov!(s, r == Some(isize::MIN + 2), "C12.cover.isize_near_min_plus_2");
+        cov!(s, r.is_none() && len == 20 && buf[0] == b'-' && buf[19] == b'9' && buf[18] == b'0' && buf[17] == b'8' && buf[16] == b'5', "C12.cover.isize_near_min_minus_1");
+    }
+}
+
+harness! {
+    /// kind=bounded tier=thorough bound="isize: sign in {none,'-','+'} followed by exactly 19 symbolic digits (isize::MAX has 19 digits)"
+    #[kani::unwind(23)]
+    #[kani::stub(konst_kernel::string::non_char_boundary_panic, crate::hlib::stub_non_char_boundary_panic)]
+    fn c12_wide_isize(s) {
+        let (len, r, buf) = wide::<isize, 22, _>(s, 19);
+        cov!(s, r == Some(isize::MAX), "C12.cover.isize_max");
+        cov!(s, r == Some(7), "C12.cover.isize_leading_zeros");
+        cov!(s, r.is_none() && len == 19 && buf[0] == b'9' && buf[1] == b'2', "C12.cover.isize_overflow_near_max");
+        cov!(s, r == Some(isize::MIN), "C12.cover.isize_min");
+        cov!(s, r == Some(0) && buf[0] == b'-', "C12.cover.isize_minus_zero");
+    }
+}
+
+harness! {
+    /// kind=bounded tier=thorough bound="isize: sign in {none,'-','+'} followed by exactly 20 symbolic digits (one more than isize::MAX has)"
+    #[kani::unwind(24)]
+    #[kani::stub(konst_kernel::string::non_char_boundary_panic, crate::hlib::stub_non_char_boundary_panic)]
+    fn c12_wide_isize_extra(s) {
+        let (len, r, buf) = wide::<isize, 22, _>(s, 20);
+        cov!(s, r == Some(isize::MAX), "C12.cover.isize_max_leading_zero");
+        cov!(s, r.is_none() && len == 20 && buf[0] == b'1', "C12.cover.isize_extra_digit_overflow");
+        cov!(s, r == Some(isize::MIN), "C12.cover.isize_min_leading_zero");
+    }
+}
+
+harness! {
+    /// kind=bounded tier=thorough bound="i32: every string [-+]?[0-9]* of <=12 bytes, length symbolic (i32::MIN has sign + 10 digits)"
+    #[kani::unwind(16)]
+    #[kani::stub(konst_kernel::string::non_char_boundary_panic, crate::hlib::stub_non_char_boundary_panic)]
+    fn c12_anylen_i32(s) {
+        let (buf, len) = any_numeric::<12, _>(s, 0, false);
+        let h = ascii_str(&buf[..len]);
+        check_whole::<i32, _>(s, h);
+        let r = prim::parse_i32(h);
+        cov!(s, r == Ok(i32::MIN) && len == 11, "C12.cover.i32_anylen_min");
+        cov!(s, r == Ok(i32::MIN) && len == 12, "C12.cover.i32_anylen_min_leading_zero");
+        cov!(s, r == Ok(i32::MAX), "C12.cover.i32_anylen_max");
+        cov!(s, len == 0, "C12.cover.i32_anylen_empty");
     }
 }
 
